@@ -2139,6 +2139,7 @@ def preprocess_file(
     pp_defs: dict = None,
     include_dirs: set = None,
     debug: bool = False,
+    include_chain: tuple = (),
 ):
     # Look for and mark excluded preprocessor paths in file
     # Initial implementation only looks for "if" and "ifndef" statements.
@@ -2230,6 +2231,9 @@ def preprocess_file(
         include_dirs = set()
     if file_path is not None:
         include_dirs.add(os.path.abspath(os.path.dirname(file_path)))
+        # Files whose preprocessing is in progress: including one of them again
+        # would never end (or end only when the interpreter's stack is exhausted)
+        include_chain = include_chain + (os.path.abspath(file_path),)
     pp_skips = []
     pp_defines = []
     pp_stack = []
@@ -2389,7 +2393,9 @@ def preprocess_file(
                 if os.path.isfile(include_path_tmp):
                     include_path = os.path.abspath(include_path_tmp)
                     break
-            if include_path is not None:
+            if include_path in include_chain:
+                log.debug("%s !!! Recursive include skipped (%d)", line.strip(), i + 1)
+            elif include_path is not None:
                 try:
                     include_file = FortranFile(include_path)
                     err_string, _ = include_file.load_from_disk()
@@ -2401,6 +2407,7 @@ def preprocess_file(
                             pp_defs=defs_tmp,
                             include_dirs=include_dirs,
                             debug=debug,
+                            include_chain=include_chain,
                         )
                         log.debug("!!! Completed parsing include file\n")
 
